@@ -69,7 +69,7 @@ class C02(Prop):
     )
     constants = {'K_HONEST': K_HONEST, 'KAPPA': KAPPA, 'COVERAGE_MIN': COVERAGE_MIN, 'Q50_MAX': Q50_MAX,
                  'Q90_MAX': Q90_MAX, 'POOL_MIN': POOL_MIN, 'POOLED': POOLED}
-    examples = {'quick': 300, 'thorough': 12000}
+    examples = {'quick': 300, 'thorough': 8000}
 
     def strategy(self, tier):
         from nverif.props import c02mv
@@ -244,11 +244,12 @@ class C02(Prop):
                     'exception': v.details.get('exception')}
         big = max(exprs.max_abs_argument(case['tree'], float(xv), ('tanh',)) for xv in case['x'])
         tiny = min(exprs.min_abs_pow_base(case['tree'], float(xv)) for xv in case['x'])
+        huge = max(exprs.max_abs_pow_base(case['tree'], float(xv)) for xv in case['x'])
         inv = min(exprs.min_abs_argument(case['tree'], float(xv), ('arcsinh', 'arctanh', 'arctan', 'arcsin'))
                   for xv in case['x'])
         return {'clause': v.clause, 'method': case['method'], 'n': case['n'],
                 'k_est': v.details.get('k_est'), 'ops': sorted(exprs.ops(case['tree'])),
-                'tanh_arg_over_300': bool(big > 300), 'pow_base_below_1e-15': bool(tiny < 1e-15), 'inverse_function_arg_below_1e-2': bool(inv < 1e-2), 'step_kind': case['step']['kind'],
+                'tanh_arg_over_300': bool(big > 300), 'pow_base_below_1e-15': bool(tiny < 1e-15), 'pow_base_above_1e150': bool(huge > 1e150), 'inverse_function_arg_below_1e-2': bool(inv < 1e-2), 'step_kind': case['step']['kind'],
                 'exception': v.details.get('exception')}
 
     def finalize(self, merged, tier):
